@@ -29,6 +29,7 @@ type Solver struct {
 	Queries int
 	dead    bool
 	log     io.Writer
+	recent  []string
 }
 
 func NewSolver(kind SolverKind, timeoutMs int) *Solver {
@@ -66,6 +67,10 @@ func (s *Solver) Close() {
 }
 
 func (s *Solver) send(l string) {
+	s.recent = append(s.recent, l)
+	if len(s.recent) > 40 {
+		s.recent = s.recent[len(s.recent)-40:]
+	}
 	if s.log != nil {
 		io.WriteString(s.log, l+"\n")
 	}
@@ -154,7 +159,7 @@ func (s *Solver) Check() (string, time.Duration) {
 				return "unknown", time.Since(t0)
 			}
 			s.dead = true
-			LastSolverError = l
+			LastSolverError = l + "\n--- recent commands ---\n" + strings.Join(s.recent, "\n")
 			return "unknown", time.Since(t0)
 		}
 	}
@@ -169,8 +174,10 @@ func (s *Solver) Model(vars []*Term) map[string]uint64 {
 		return out
 	}
 	names := make([]string, len(vars))
+	back := map[string]string{}
 	for i, v := range vars {
 		names[i] = s.P.Print(v)
+		back[names[i]] = v.Name
 	}
 	s.flush()
 	s.send("(get-value (" + strings.Join(names, " ") + "))")
@@ -183,6 +190,9 @@ func (s *Solver) Model(vars []*Term) map[string]uint64 {
 	for i := 0; i+3 < len(toks); i++ {
 		if toks[i] == "(" && toks[i+3] == ")" && toks[i+1] != "(" {
 			name, val := toks[i+1], toks[i+2]
+			if orig, ok := back[name]; ok {
+				name = orig
+			}
 			switch {
 			case val == "true":
 				out[name] = 1
